@@ -36,8 +36,8 @@ theorem code_shape :
     Generated.C09.globalDeltaIsLenCks = true ∧ Generated.C09.dryDeltaSubtractsPhase1 = true ∧
     -- the time index folds a write notification into a chunk's hull with two independent ifs (MinTs, MaxTs)
     Generated.C09.hullUpdateIndependentIfs = true ∧
-    -- deleteJournal re-checks the size under its exclusive lock
-    Generated.C09.deleteJournalRechecksSize = true ∧
+    -- deleteJournal re-checks the size under its exclusive lock, after a Sync (eafecef)
+    Generated.C09.deleteJournalRechecksSize = true ∧ Generated.C09.deleteJournalSyncsBeforeRecheck = true ∧
     -- cac5c5d: equal latest timestamps are ordered by source id
     Generated.C09.insertOrdersByTsDescThenSrcAsc = true := by decide
 
@@ -251,6 +251,29 @@ theorem canDelete_is_drop_step (users : Nat) (cks : List Chunk) : canDelete user
 /-- without the re-check (a seeded change the check must catch) a partition that received an event between
 `truncate`'s snapshot and the lock is dropped with the event in it -/
 theorem cex_drop_without_recheck : deleteJournalAt false 0 [⟨2, 19, 500⟩] = true ∧ deleteJournalAt true 0 [⟨2, 19, 500⟩] = false := by
+  decide
+
+/-- **A partition is not dropped while it holds acknowledged records, flushed or not** (fix eafecef): `deleteJournal`
+flushes under the exclusive lock before it re-checks the size — both regenerated from the source. -/
+theorem drop_only_without_acknowledged_data (users confirmed unflushed : Nat)
+    (h : deleteJournalSeen Generated.C09.deleteJournalRechecksSize Generated.C09.deleteJournalSyncsBeforeRecheck
+      users confirmed unflushed = true) : users = 0 ∧ confirmed = 0 ∧ unflushed = 0 := by
+  have h1 : Generated.C09.deleteJournalRechecksSize = true := by decide
+  have h2 : Generated.C09.deleteJournalSyncsBeforeRecheck = true := by decide
+  rw [h1, h2] at h
+  simp [deleteJournalSeen] at h
+  omega
+
+/-- regression of F76 (fixed): without the Sync a new partition whose 57 acknowledged bytes wait for their flush looks
+empty to the re-check and is dropped; with it the drop is refused -/
+theorem regress_unflushed_drop :
+    deleteJournalSeen true false 0 0 57 = true ∧ deleteJournalSeen true true 0 0 57 = false := by decide
+
+/-- F84 — the DRY run's `size == 0` branch still goes by `Size()` alone: for that same partition it announces the drop
+the real run (rightly) refuses -/
+theorem cex_dry_announces_unflushed_drop :
+    dryAnnouncesDrop 0 = true ∧
+    deleteJournalSeen Generated.C09.deleteJournalRechecksSize Generated.C09.deleteJournalSyncsBeforeRecheck 0 0 57 = false := by
   decide
 
 /-- **DRYRUN announces what the run does — phase I, one partition, nobody else using it**: same immediate report,
